@@ -199,6 +199,15 @@ def run(ctx):
             names[a0["cell"]] = names[a0["node"]] + rng.choice(["f", "_c", "x"])     # node name is a prefix of the cell name
         axn = sorted({d["axis"] for d in c["desc"]["comodo"]})
         amap = dict(zip(axn, rng.sample([n for n in POOL if n not in names.values()], len(axn))))
+        if len(axn) >= 2 and rng.random() < 0.35:
+            # two axes whose names differ only in the case of their letters
+            lo_, up_ = rng.choice([("z", "Z"), ("lev", "Lev"), ("x", "X"), ("eta", "ETA"), ("t", "T")])
+            if lo_ not in names.values() and up_ not in names.values():
+                a_, b_ = rng.sample(axn, 2)
+                amap[a_], amap[b_] = lo_, up_
+                for other in axn:
+                    if other not in (a_, b_) and amap[other] in (lo_, up_):
+                        amap[other] = "axis_" + other
         for d in c["desc"]["comodo"]:
             d["dim"], d["axis"] = names[d["dim"]], amap[d["axis"]]
         for a in c["desc"]["sgrid"]:
